@@ -45,6 +45,19 @@ func runGcsync(c *Ctx) {
 		}
 		fname := core.FuncName(d.Obj)
 		lits := escapingLits(c, d)
+		// the variables the rows talk about, found by structure (not by name)
+		wr, st, pre := "?write", "?status", "?pre"
+		if v := paramWhere(d, isBoolType); v != nil {
+			wr = c.Role(v)
+		}
+		if v := localWhere(d, d.Decl, func(v *types.Var, _ *ast.Ident) bool { return core.IsAtomicType(v.Type()) }); v != nil {
+			st = c.Role(v)
+		} else {
+			c.MissingAnchor("R12", fname+": the local status word (a sync/atomic value)")
+		}
+		if v := assignedFromCall(d, d.Decl, 0, func(call *ast.CallExpr) bool { _, ok := callSel(call, "Swap"); return ok }); v != nil {
+			pre = c.Role(v)
+		}
 		isGrant := func(ev *core.Event) bool {
 			return assignsField(ev, locked, "true") || assignsField(ev, writing, "true") || incDecField(ev, nread, token.INC)
 		}
@@ -67,10 +80,10 @@ func runGcsync(c *Ctx) {
 					a.requireGuard("R12", fname+"/grant(nreaders++)", g, i, true, availR, "the read grant m.nreaders++")
 				case incDecField(ev, wwait, token.INC):
 					inc++
-					a.requireGuard("R12", fname+"/register(writeWaiting++)", g, i, true, fand(fld("write"), fnot(availW)), "the registration m.writeWaiting++")
+					a.requireGuard("R12", fname+"/register(writeWaiting++)", g, i, true, fand(fld(wr), fnot(availW)), "the registration m.writeWaiting++")
 				case incDecField(ev, wwait, token.DEC) && ev.Frame.Parent != nil && ev.Frame.Parent.Parent == nil && ev.Frame.CS != nil:
 					dec++
-					a.requireGuard("R12", fname+"/deregister(writeWaiting--)[grant]", g, i, true, fand(fld("write"), availW), "m.writeWaiting-- on the slow-path grant")
+					a.requireGuard("R12", fname+"/deregister(writeWaiting--)[grant]", g, i, true, fand(fld(wr), availW), "m.writeWaiting-- on the slow-path grant")
 				case incDecField(ev, wwait, token.DEC):
 					dec++
 				}
@@ -96,9 +109,9 @@ func runGcsync(c *Ctx) {
 						success = id.Name == "true"
 					}
 					if success {
-						want := eq("1", "status")
+						want := eq("1", st)
 						if t.name == "TryLock" {
-							want = fnot(fld("unlocked"))
+							want = fnot(fld(st))
 						}
 						a.requireGuard("R12", fname+"/return-success", g, i, false, want, "a successful return")
 						a.note("R12", fname+"/return-success/after-grant", ev.Pos, !granted,
@@ -141,8 +154,8 @@ func runGcsync(c *Ctx) {
 							"the closure decides by an atomic Swap/CompareAndSwap before it enters a critical section",
 							"the release closure enters a critical section without first winning an atomic test-and-set: a repeated release changes who holds the lock", p)
 					}
-					first := fnot(fld("unlocked.Swap(true)"))
-					held := for_(eq("1", "pre"), fand(fnot(eq("0", "pre")), fnot(eq("2", "pre"))))
+					first := fnot(fld(st + ".Swap(true)"))
+					held := for_(eq("1", pre), fand(fnot(eq("0", pre)), fnot(eq("2", pre))))
 					switch {
 					case assignsField(ev, locked, "false"):
 						w := held
@@ -151,19 +164,19 @@ func runGcsync(c *Ctx) {
 						}
 						a.requireGuard("R12", name+"/ungrant(locked=false)", g, i, false, w, "the un-grant m.locked = false")
 					case assignsField(ev, writing, "false"):
-						w := fand(held, fld("write"))
+						w := fand(held, fld(wr))
 						if t.name == "TryLock" {
-							w = fand(first, fld("write"))
+							w = fand(first, fld(wr))
 						}
 						a.requireGuard("R12", name+"/ungrant(writing=false)", g, i, false, w, "the un-grant m.writing = false")
 					case incDecField(ev, nread, token.DEC):
-						w := fand(held, fnot(fld("write")))
+						w := fand(held, fnot(fld(wr)))
 						if t.name == "TryLock" {
-							w = fand(first, fnot(fld("write")))
+							w = fand(first, fnot(fld(wr)))
 						}
 						a.requireGuard("R12", name+"/ungrant(nreaders--)", g, i, false, w, "the un-grant m.nreaders--")
 					case incDecField(ev, wwait, token.DEC):
-						a.requireGuard("R12", name+"/deregister(writeWaiting--)[give-up]", g, i, false, fand(eq("0", "pre"), fld("write")), "m.writeWaiting-- in the release closure")
+						a.requireGuard("R12", name+"/deregister(writeWaiting--)[give-up]", g, i, false, fand(eq("0", pre), fld(wr)), "m.writeWaiting-- in the release closure")
 					case isGrant(ev):
 						a.note("R12", name+"/no-grant-in-release", ev.Pos, true, "", "a release closure performs a grant write", p)
 					}
